@@ -86,7 +86,7 @@ func checkTSNullable(w *World, r *Result) {
 				return true
 			}
 			call, ok := ret.Results[0].(*ast.CallExpr)
-			if !ok || fullName(calleeOf(info, call)) != "fmt.Sprintf" {
+			if !ok || !isSprintf(info, &call) {
 				return true
 			}
 			format, vas := verbArgs(info, call)
@@ -155,7 +155,7 @@ func checkTSNullable(w *World, r *Result) {
 	alias := false
 	ast.Inspect(ca.Decl.Body, func(x ast.Node) bool {
 		call, ok := x.(*ast.CallExpr)
-		if !ok || fullName(calleeOf(cinfo, call)) != "fmt.Sprintf" {
+		if !ok || !isSprintf(cinfo, &call) {
 			return true
 		}
 		format, vas := verbArgs(cinfo, call)
@@ -231,10 +231,10 @@ func checkTSEnum(w *World, r *Result) {
 	}
 	v := info.Defs[identOf(loop.Value)]
 	guards := leadingGuards(info, loop.Body, map[types.Object]string{v: "$m"})
-	apps := appendStmts(info, loop.Body, "")
+	apps := accumStmts(info, fi.Decl, loop)
 	uncond := len(apps) >= 1
 	for _, a := range apps {
-		if len(pathCondsNoLoop(fi, a)) != 0 {
+		if len(pathCondsNoLoop(fi, a.stmt)) != 0 {
 			uncond = false
 		}
 	}
@@ -243,7 +243,7 @@ func checkTSEnum(w *World, r *Result) {
 	okPair := false
 	ast.Inspect(loop.Body, func(x ast.Node) bool {
 		call, ok := x.(*ast.CallExpr)
-		if !ok || fullName(calleeOf(info, call)) != "fmt.Sprintf" {
+		if !ok || !isSprintf(info, &call) {
 			return true
 		}
 		format, vas := verbArgs(info, call)
